@@ -858,7 +858,7 @@ func makeFieldFilterCondition(
 	}
 
 	var err error
-	if len(jsonPath) > 0 {
+	if len(jsonPath) > 0 || isJSONScalarCondition(indexedField, filterVal) {
 		err = setJSONFilterCondition(&cond, filterVal, jsonPath)
 	} else if filterVal == nil {
 		cond.val, err = client.NewNormalNil(cond.kind)
@@ -880,6 +880,20 @@ func makeFieldFilterCondition(
 		}
 	}
 	return cond, err
+}
+
+// isJSONScalarCondition reports whether the filter compares a whole JSON field with a scalar: the indexed values
+// of the field are JSON values (here with an empty path), and so has to be the value they are compared with.
+func isJSONScalarCondition(indexedField client.FieldDefinition, filterVal any) bool {
+	if indexedField.Kind != client.FieldKind_NILLABLE_JSON {
+		return false
+	}
+	switch filterVal.(type) {
+	case bool, int64, int32, int, float64, float32, string:
+		return true
+	default:
+		return false
+	}
 }
 
 // getNestedOperatorConditionIfJSON traverses the filter map if the indexed field is JSON to find the
